@@ -38,6 +38,14 @@ def probe_suite():
     out['format4'] = sqlparse.format('select 1; select 2', output_format='php', reindent=True, comma_first=True,
                                      wrap_after=5, indent_tabs=True)
     out['bytes'] = [str(s) for s in sqlparse.parse('select é'.encode('utf-8'))]
+    # every filter alone, on inputs where it has something to do
+    out['strip_comments'] = sqlparse.format('select a/*c*/b, c /* d */ from t -- e\nwhere x/* f */=1', strip_comments=True)
+    out['spaces'] = sqlparse.format('select a+b, c from t where c=d and e<>f', use_space_around_operators=True)
+    out['strip_ws'] = sqlparse.format('select  a ,  b\n from ( select 1 ) x', strip_whitespace=True)
+    out['cases'] = sqlparse.format('Select Foo, "Bar" from Tbl', keyword_case='capitalize', identifier_case='lower')
+    out['truncate'] = sqlparse.format("select 'abcdefgh', 'ab'", truncate_strings=4, truncate_char='~')
+    out['reindent'] = sqlparse.format('select a, b, f(c, d) from t join u on x = y where a = 1 or b = 2 group by a', reindent=True)
+    out['aligned'] = sqlparse.format('select a, b from t join u on x = y where a = 1 or b = 2 order by a', reindent_aligned=True)
     return out
 
 
@@ -115,6 +123,10 @@ def _ops():
         except sqlparse.exceptions.SQLParseError:
             pass
 
+    def format_strip_comments_ws():
+        sqlparse.format('a /*c*/', strip_comments=True, strip_whitespace=True)
+        sqlparse.format('select a /* c */ , b -- d\n from t /* e */', strip_comments=True, reindent=True)
+
     def format_operators_ws():
         sqlparse.format('select a+\nb, c\n=d from t', use_space_around_operators=True, strip_whitespace=True)
         sqlparse.format('select a=b', use_space_around_operators=True)
@@ -159,7 +171,8 @@ def _ops():
         ('parse', parse_ok), ('parse-raises', parse_raises), ('parse-bytes', parse_bytes),
         ('parse-nontext', parse_nontext), ('split-strip', split_strip), ('format-reindent', format_reindent),
         ('format-aligned', format_aligned), ('format-python', format_python), ('format-invalid', format_invalid),
-        ('format-operators-ws', format_operators_ws), ('stream-abandoned', stream_abandoned),
+        ('format-operators-ws', format_operators_ws), ('format-strip-comments-ws', format_strip_comments_ws),
+        ('stream-abandoned', stream_abandoned),
         ('stream-suspended', stream_suspended), ('reconfigure-and-reset', reconfigure_and_reset),
         ('cli-main', cli_main), ('many-statements', many_statements)])
 
